@@ -27,7 +27,9 @@ void simgrid::kernel::actor::ActorImpl::simcall_answer()
 bool simgrid::s4u::Host::is_on() const { return true; }
 void simgrid::kernel::actor::ActorImpl::set_wannadie(bool v) { iwannadie_ = v; }
 simgrid::kernel::actor::ObjectAccessSimcallItem::ObjectAccessSimcallItem() { simcall_owner_ = nullptr; }
+#ifndef KSYNC_OWN_MC
 extern "C" int MC_is_active() { return 0; }
+#endif
 
 static ActorImpl* mk_actor(int i)
 {
